@@ -125,6 +125,21 @@ func TestC13_Boosts(t *testing.T) {
 		}
 		with := opt
 		with.ContextBoosts = boosts
+		given := map[string]float64{} // the boosts as the caller made them
+		for k, v := range boosts {
+			given[k] = v
+		}
+		reused := false
+		if rapid.IntRange(0, 2).Draw(t, "boost-map-reused") == 0 {
+			// a program keeps ONE boost map for its working directory and hands it to every search: the
+			// searches before this one (the same words with the language stage on, an everyday sentence)
+			// are no reason for this one to score differently
+			reused = true
+			pre := with
+			pre.UseNLP = true
+			db.SearchUniversal(q, pre)
+			db.SearchUniversal(rapid.SampledFrom([]string{"install a package", "find files", "create a directory", "show running processes", "compress a folder", "delete files"}).Draw(t, "earlier-sentence")+" "+q, pre)
+		}
 		a := rank(db, db.SearchUniversal(q, opt))
 		b := rank(db, db.SearchUniversal(q, with))
 		sa, sb := map[int]float64{}, map[int]float64{}
@@ -148,7 +163,7 @@ func TestC13_Boosts(t *testing.T) {
 				t.Fatalf("context boosts removed entry #%d\n%s", i, ctx())
 			}
 			contains := false
-			for w := range boosts {
+			for w := range given {
 				if docs[i].Has(w) {
 					contains = true
 				}
@@ -179,6 +194,9 @@ func TestC13_Boosts(t *testing.T) {
 		}
 		if withEmb {
 			labels = append(labels, "embedding-index-attached")
+		}
+		if reused {
+			labels = append(labels, "boost-map-reused")
 		}
 		rec.Case(inQuery && some && notAll, map[string]any{"db": gen.BriefDB(cmds, 5), "query": q, "boosts": boosts, "options": optBrief(opt), "results": len(a)}, labels...)
 	})
